@@ -32,7 +32,7 @@ var files = []genFile{
 		Name: "LogBuf", Imports: []string{"PC.Go.Slice"}, Opens: []string{"PC.Go"},
 		Consts: []constSpec{{"src/pclog/process_log_buffer.go", "slack", "slack", "Nat"}},
 		Funcs: []*FuncSpec{{
-			File: "src/pclog/process_log_buffer.go", Recv: "ProcessLogBuffer", Name: "GetLogRange",
+			File: "src/pclog/process_log_buffer.go", Recv: "ProcessLogBuffer", Name: "getLogRange",
 			LeanName: "getLogRange",
 			LeanSig:  "(buffer : List String) (offsetFromEnd limit : Int) : Option (List String)",
 			Subst: map[string]string{
@@ -224,7 +224,7 @@ func main() {
 	for _, o := range old {
 		keep := false
 		for _, gf := range files {
-			if filepath.Base(o) == gf.Name+".lean" || filepath.Base(o) == "Facts.lean" || filepath.Base(o) == "Api.lean" {
+			if filepath.Base(o) == gf.Name+".lean" || filepath.Base(o) == "Facts.lean" || filepath.Base(o) == "Api.lean" || filepath.Base(o) == "Locks.lean" {
 				keep = true
 			}
 		}
@@ -316,6 +316,7 @@ func main() {
 		}
 	}
 	writeApiFacts(root, gen, status, facts)
+	writeLockFacts(root, gen, status, facts)
 	facts["translated"] = status
 	for name, f := range factTables {
 		v, err := f(root)
